@@ -69,6 +69,7 @@ def enumerate_cases(tier, seed):
     # formula has returned (the instance being created is the last element, without a line)
     for n in (150, 250, 600) + ((3000,) if tier == "thorough" else ()):
         yield {"kind": "deep", "n": n, "ops": []}
+    yield {"kind": "sourceless", "ops": []}
     for how in ("not_dict", "ref_clash", "bad_base"):
         for via in ("direct", "chain", "chain_after_handled"):
             yield {"kind": "item_reject", "how": how, "via": via, "ops": []}
@@ -98,6 +99,30 @@ def run_directed(case, out):
                 n + 1, len(got), got[:1], got[-1:]))
         out.nontrivial = True
         out.label("deep_chain")
+        return out
+    if case["kind"] == "sourceless":
+        # a formula made from a function whose source cannot be retrieved fails like any other
+        import warnings
+        ns = {}
+        exec("def baz(x):\n    return 1 // x\n", ns)
+        with warnings.catch_warnings():
+            warnings.simplefilter("ignore")
+            s.new_cells("baz", ns["baz"])
+        s.new_cells("top", "lambda x: baz(x) + 1")
+        for call, want in ((lambda: s.baz(0), [(("S",), "baz", (0,), 2)]),
+                           (lambda: s.top(0), [(("S",), "top", (0,), 1), (("S",), "baz", (0,), 2)])):
+            try:
+                call()
+                return out.fail("no-error", "a failing source-less formula returned")
+            except Exception as exc:
+                if type(exc).__name__ != "FormulaError":
+                    return out.fail("error-kind", "a failing formula without retrievable source raised %r" % (exc,))
+            got = [tb_entry(nd, ln) for nd, ln in mx.get_traceback()]
+            if got != want or not isinstance(mx.get_error(), ZeroDivisionError):
+                return out.fail("traceback", "source-less formula: get_traceback() = %r, expected %r, get_error() = %r" % (
+                    got, want, mx.get_error()))
+        out.nontrivial = True
+        out.label("sourceless")
         return out
     how, via = case["how"], case["via"]
     formula = {"not_dict": "lambda i: 5", "ref_clash": "lambda i: {'refs': {'c': 1}}",
@@ -143,7 +168,7 @@ def tb_entry(node, line):
 
 def run_case(case):
     out = Outcome()
-    if case.get("kind") in ("deep", "item_reject"):
+    if case.get("kind") in ("deep", "item_reject", "sourceless"):
         return run_directed(case, out)
     reset_session()
     real = Real()
